@@ -246,8 +246,38 @@ class _Rec:
         pass
 
     def expect_model(self, line, expected, detail):
-        if line.split(' ', 1)[0] in OPS:
-            self.lines.append((line, expected))
+        op = line.split(' ', 1)[0]
+        if op not in OPS:
+            return
+        if op.endswith('par'):
+            # the harness records the EXPECTED logical value for a parse request (and reports a library that differs as a failure);
+            # the translator validation needs what the library's parser really returns on that cell
+            expected = _lib_parse(op, line)
+        self.lines.append((line, expected))
+
+
+def _lib_parse(op, line):
+    from ..gen import cells as G
+    from ..gen import msgs as M
+    _, dag, node = line.split(' ')
+    nodes = []
+    for t in dag.split('|'):
+        k, b, r = t.split(',')
+        nodes.append((int(k), '' if b == '-' else b, tuple(int(x) for x in r.split('.')) if r != '-' else ()))
+    cell = G.lib_build(nodes)[int(node)]
+    try:
+        if op == 'msgpar':
+            from pytoniq_core.tlb.transaction import MessageAny
+            return 'ok ' + M.canon_lib_msg(MessageAny.deserialize(cell.begin_parse()))
+        if op == 'sipar':
+            from pytoniq_core.tlb.account import StateInit
+            return 'ok ' + M.canon_lib_init(StateInit.deserialize(cell.begin_parse()))
+        from pytoniq_core.tlb.block import CurrencyCollection
+        return 'ok ' + M.canon_lib_currency(CurrencyCollection.deserialize(cell.begin_parse()))
+    except RecursionError:
+        raise
+    except Exception:
+        return 'err'
 
 
 def harness_requests(seed=20240921, nrand=150):
